@@ -17,10 +17,16 @@
      junk : str -> names     whatever callbacks pyparsing fired while *failing* to parse a string beyond the
                              ones the token-level model computes (e.g. suffix actions before a character the
                              lexer rejects); arbitrary, the theorems hold for every junk
+     engine_fails : str -> bool
+                             the strings on which the parsing engine itself gives up with a non-parse exception
+                             (pyparsing recurses once per bracket level: RecursionError on deep nesting); the
+                             exception is not a ParseException, so parse() does not translate it, it escapes
+                             as it is -- after `finally` has reset the scratch.  Arbitrary as well.
      policy                  which of the anchored mechanisms are in place.  [faithful] is the code as it is;
                              the other policies exist only to show (Props/C10.v, Examples) that the theorems
                              fail without the mechanism: reset only after a successful parse (no `finally`),
-                             and reset by .clear() instead of replacing the sets.
+                             reset by .clear() instead of replacing the sets, reset after parse-class errors
+                             only (`except (ParseException, ...)` instead of `finally`).
 
    parse_op    MathParser.parse(expression)
    eval_op     evaluator(formula, variables, functions, suffixes, max_array_dim) through the same parser
@@ -35,8 +41,8 @@ Record parsed := mkParsed { p_tree : tree; p_ref : nat }.
 
 Record pstate := mkState { cache : list (str * parsed); heap : list names; cur : nat }.
 
-Record policy := mkPolicy { reset_on_error : bool; reset_replaces : bool }.
-Definition faithful : policy := mkPolicy true true.
+Record policy := mkPolicy { reset_on_error : bool; reset_replaces : bool; reset_on_engine_error : bool }.
+Definition faithful : policy := mkPolicy true true true.
 
 Definition init : pstate := mkState [] [no_names] 0.
 
@@ -63,17 +69,21 @@ Definition reset (pol : policy) (st : pstate) : pstate :=
 
 Inductive perr :=
 | EUnbal (e : bracket_error) (quoted : str)      (* UnbalancedBrackets; highlights the space-free string *)
-| EUnparse (quoted : str).                        (* UnableToParse "Could not parse '<quoted>' as a formula" *)
+| EUnparse (quoted : str)                         (* UnableToParse "Could not parse '<quoted>' as a formula" *)
+| EEngine.                                        (* a non-parse exception of the engine (RecursionError on deep nesting)
+                                                     escapes parse() / evaluator() untranslated *)
 
-Inductive raw_err := RawUnbal (e : bracket_error) | RawUnparsable.
+Inductive raw_err := RawUnbal (e : bracket_error) | RawUnparsable | RawEngine.
 
 Section Machine.
   Variable junk : str -> names.
+  Variable engine_fails : str -> bool.
   Variable pol : policy.
 
   Definition fail (st : pstate) (l : names) (e : raw_err) : pstate * (parsed + raw_err) :=
     let st1 := record st l in
-    (if reset_on_error pol then reset pol st1 else st1, inr e).
+    let resets := match e with RawEngine => reset_on_engine_error pol | _ => reset_on_error pol end in
+    (if resets then reset pol st1 else st1, inr e).
 
   (* raw_parse(expression): try: validate brackets; grammar.parseString (callbacks fire);
      MathExpression(..., self.variables_used, ...)   finally: reset_storage() *)
@@ -81,6 +91,7 @@ Section Machine.
     match check_brackets k with
     | Some e => fail st no_names (RawUnbal e)
     | None =>
+        if engine_fails k then fail st (junk k) RawEngine else
         match lex k with
         | None => fail st (junk k) RawUnparsable
         | Some ts =>
@@ -104,6 +115,7 @@ Section Machine.
         | (st', inl p) => (mkState (cache st' ++ [(k, p)]) (heap st') (cur st'), inl p)
         | (st', inr (RawUnbal e)) => (st', inr (EUnbal e k))
         | (st', inr RawUnparsable) => (st', inr (EUnparse s))
+        | (st', inr RawEngine) => (st', inr EEngine)
         end
     end.
 
@@ -197,16 +209,17 @@ Arguments VE v.
 
 (* ---------- the reference: a freshly constructed parser ---------- *)
 (* MathParser().parse(s), seen through the returned object *)
-Definition fresh_parse (junk : str -> names) (s : str) : pview :=
-  let (st, r) := parse_op junk faithful init s in view_parse st r.
+Definition fresh_parse (junk : str -> names) (engine : str -> bool) (s : str) : pview :=
+  let (st, r) := parse_op junk engine faithful init s in view_parse st r.
 
 (* the stateless description the history-independence theorems compare against: Model/Parser.v's
    parse_formula, the names read off the tree by the callbacks, errors quoting the call's own string *)
-Definition spec_parse (s : str) : pview :=
+Definition spec_parse (engine : str -> bool) (s : str) : pview :=
   let k := strip_spaces s in
   match check_brackets k with
   | Some e => VErr (EUnbal e k)
-  | None => match lex k with
+  | None => if engine k then VErr EEngine else
+            match lex k with
             | None => VErr (EUnparse s)
             | Some ts => match cb_parse_tokens ts with
                          | (Some t, l) => VTree t l
@@ -215,14 +228,14 @@ Definition spec_parse (s : str) : pview :=
             end
   end.
 
-Definition spec_eval (E : env) (max_array_dim : option nat) (formula : option str) : eview :=
+Definition spec_eval (engine : str -> bool) (E : env) (max_array_dim : option nat) (formula : option str) : eview :=
   match formula with
   | None => EvNan
   | Some s =>
       match py_strip s with
       | [] => EvNan
       | s' =>
-          match spec_parse s' with
+          match spec_parse engine s' with
           | VErr e => EvPErr e
           | VTree t nm =>
               match check_scope_names E nm with
@@ -242,10 +255,10 @@ Definition spec_eval (E : env) (max_array_dim : option nat) (formula : option st
       end
   end.
 
-Definition spec_view (o : op) : view :=
+Definition spec_view (engine : str -> bool) (o : op) : view :=
   match o with
-  | OParse s => VP (spec_parse s)
-  | OEval E m f => VE (spec_eval E m f)
+  | OParse s => VP (spec_parse engine s)
+  | OEval E m f => VE (spec_eval engine E m f)
   end.
 
 (* projection of an evaluation view onto Model/Eval.v's outcome (C03's front door) *)
@@ -255,6 +268,7 @@ Definition eview_outcome (v : eview) : outcome :=
   | EvVal x _ _ => OVal x
   | EvPErr (EUnbal e _) => OParseError (PEUnbalanced e)
   | EvPErr (EUnparse _) => OParseError PEUnparsable
+  | EvPErr EEngine => OError EUnsupported          (* outside Model/Eval.v: the engine gave up *)
   | EvTooManyDims => OParseError PETooManyDims
   | EvErr e => OError e
   end.
